@@ -15,10 +15,10 @@ import (
 	"context"
 	"fmt"
 	"math/big"
+	"os"
 	"reflect"
 	"regexp"
 	"runtime/metrics"
-	"os"
 	"sort"
 	"strings"
 	"sync"
